@@ -16,6 +16,7 @@ def showExc : PyExc → String
   | .indexError => "IndexError"
   | .keyError => "KeyError"
   | .outOfFuel => "OutOfFuel"
+  | .typeError => "TypeError"
 def showBool (b : Bool) : String := if b then "bool 1" else "bool 0"
 def resolveStub (b r : List Char) : List Char := "[".toList ++ b ++ "|".toList ++ r ++ "]".toList
 
